@@ -139,6 +139,89 @@ def field_wrappers(vk, cfg):
     vk.ensures_eq("hess(basis array)==delta_ij d2h_a/dXdX", hb, ref_einsum("ij,aklqc->aijklqc", eye, rg.d2hdXdX))
     vk.ensures_eq("grad(basis array)==delta_ij dh_a/dX", gb, ref_einsum("ij,akqc->aijkqc", eye, rg.dhdX))
 
+    # ---- n (index of the field in the container), dim (number of columns of the padded values), axis (norm): the
+    # documented selection.  Container [f, g, f2]: n=2 is the LAST field, n=1 the scalar one
+    for fn in (M.displacement, M.deformation_gradient, M.right_cauchy_green_deformation, M.strain, M.norm):
+        vk.real(fn)
+    u2 = vk.reals("u2", (npts, dim), near=-0.1, spread=0.4)
+    f2 = cls(rg, dim=dim, values=u2)
+    fcn = fem.FieldContainer([f, g, f2])
+    last = 2
+
+    def padded(vals, ncol):
+        out = _zeros(vk, (vals.shape[0], ncol))
+        out[:, : vals.shape[1]] = vals
+        return out
+
+    vk.ensures_eq("displacement(container)/defaults==values of field 0 in 3 columns", M.displacement(fcn), padded(u, 3))
+    vk.ensures_eq("displacement(container, n=last)==values of the last field in 3 columns", M.displacement(fcn, n=last), padded(u2, 3))
+    vk.ensures_eq("displacement(container, n=1)==scalar field with two zero columns", M.displacement(fcn, n=1), padded(p, 3))
+    vk.ensures_eq("displacement(container, dim=field dimension, n=last)==the values (no column added)", M.displacement(fcn, dim=dim, n=last), u2)
+    vk.ensures_eq("displacement(container, dim=5, n=last)==values in 5 columns", M.displacement(fcn, dim=5, n=last), padded(u2, 5))
+    vk.ensures_eq("displacement(container, dim=1, n=1)==the scalar values", M.displacement(fcn, dim=1, n=1), p)
+    F2 = _spec_extract(vk, kind, u2, rg, True, False, True)
+    C2 = ref_einsum("kiqc,kjqc->ijqc", F2, F2)
+    vk.ensures_eq("deformation_gradient(container, n=last)==I+grad of the last field", M.deformation_gradient(fcn, n=last), F2)
+    vk.ensures_eq("deformation_gradient(container)==I+grad of field 0", M.deformation_gradient(fcn), _spec_extract(vk, kind, u, rg, True, False, True))
+    vk.ensures_eq("right_cauchy_green_deformation(container, n=last)==F^T F of the last field", M.right_cauchy_green_deformation(fcn, n=last), C2)
+    # norm: axis=None is the norm of the whole array, axis=k the norms along that axis; a list gives one entry per item
+    # (stated through the square: the root atom is non-negative)
+    G2 = _spec_field(vk, kind, u2, rg, "grad")
+    n0 = M.norm(G2, axis=0)
+    vk.ensures_eq("norm(A, axis=0)^2==sum over axis 0 of A^2", n0 * n0, (G2 * G2).sum(axis=0))
+    n1 = M.norm([G2[0], G2[1]], axis=0)
+    vk.ensures_eq("norm([A0, A1], axis=0)^2==per item: sum over axis 0", n1 * n1, np.array([(G2[0] * G2[0]).sum(axis=0), (G2[1] * G2[1]).sum(axis=0)]))
+    nn = M.norm([G2[0], G2[1]])
+    vk.ensures_eq("norm([A0, A1])^2==per item: sum of all squares", nn * nn, np.array([(G2[0] * G2[0]).sum(), (G2[1] * G2[1]).sum()]))
+    if vk.sym:
+        from vk import oracle, symnp
+        from vk.ring import co
+
+        vk.ensures_true("norm(axis=0)>=0, shape == shape without axis 0", np.shape(n0) == G2.shape[1:] and all(oracle.decide(co(x), ">=") for x in np.asarray(n0, dtype=object).ravel()), str(np.shape(n0)))
+        # strain(container, n) / EvaluateFieldContainer.strain / log_strain / green_lagrange_strain (n): Seth-Hill strain
+        # of the n-th field -- under the eigh contract (backend stub: the matrix handed to the backend identifies the field)
+        vk.real(fem.field.EvaluateFieldContainer.strain)
+        vk.real(fem.field.EvaluateFieldContainer.log_strain)
+        vk.real(fem.field.EvaluateFieldContainer.green_lagrange_strain)
+        seen = {}
+        d3 = C2.shape[0]
+        batch = C2.shape[2:]
+
+        def backend(a, UPLO="L"):
+            seen["arg"] = np.asarray(a)
+            seen["w"], seen["V"] = ring.symarray("lam", batch + (d3,)), ring.symarray("vec", batch + (d3, d3))
+            return seen["w"], seen["V"]
+
+        def strain_spec(k):
+            lam, N = ref_einsum("qca->aqc", seen["w"]), ref_einsum("qcia->iaqc", seen["V"])
+            st = symnp._sqrt(lam)
+            fk = symnp._OVERRIDES["log"](st) if k == 0 else (st**k - 1) / k
+            return ref_einsum("aqc,iaqc,jaqc->ijqc", fk, N, N)
+
+        C0 = ref_einsum("kiqc,kjqc->ijqc", _spec_extract(vk, kind, u, rg, True, False, True), _spec_extract(vk, kind, u, rg, True, False, True))
+        ev = fem.field.EvaluateFieldContainer(fcn)
+        symnp.LINALG_STUBS.update(eigh=backend)
+        try:
+            for label, call, k in (
+                ("math.strain(container, n=last)", lambda: M.strain(fcn, n=last), 0),
+                ("math.strain(container, k=2, n=last)", lambda: M.strain(fcn, k=2, n=last), 2),
+                ("evaluate.strain(n=last)", lambda: ev.strain(n=last), 0),
+                ("evaluate.strain(k=-2, n=last)", lambda: ev.strain(k=-2, n=last), -2),
+                ("evaluate.log_strain(n=last)", lambda: ev.log_strain(n=last), 0),
+                ("evaluate.green_lagrange_strain(n=last)", lambda: ev.green_lagrange_strain(n=last), 2),
+            ):
+                E_ = call()
+                vk.ensures_eq(f"{label}/decomposes C of the last field", seen["arg"], ref_einsum("ijqc->qcij", C2))
+                vk.ensures_eq(f"{label}==sum_a f(lambda_a) N_a (x) N_a", E_, strain_spec(k))
+            M.strain(fcn)
+            vk.ensures_eq("math.strain(container)/decomposes C of field 0", seen["arg"], ref_einsum("ijqc->qcij", C0))
+            ev.green_lagrange_strain()
+            vk.ensures_eq("evaluate.green_lagrange_strain()/decomposes C of field 0", seen["arg"], ref_einsum("ijqc->qcij", C0))
+            M.strain(fcn, n=last)
+            vk.canary("math.strain(container, n=last) decomposes C of field 0", seen["arg"], ref_einsum("ijqc->qcij", C0))
+        finally:
+            symnp.LINALG_STUBS.clear()
+
     # ---- frame: nothing above changes the nodal values
     vk.frame_unchanged("u", f.values, snap_u)
     vk.frame_unchanged("p", g.values, snap_p)
